@@ -202,8 +202,8 @@ def overlapping_run(variants_p, d, thorough):
     p = vlib.run_driver(rb, ["confdecode", "-mode", "conc", "-variants", variants_p, "-out", obs, "-goroutines", str(g), "-rounds", str(rounds)],
                         timeout=1500, env={"GORACE": "halt_on_error=0 exitcode=0"})
     rows = vlib.read_ndjson(obs)
-    if len([r_ for r_ in rows if r_["kind"] == "section"]) < 20:
-        raise vlib.MachineryError("only %d sections were decoded concurrently" % len(rows))
+    if not [r_ for r_ in rows if r_["kind"] == "section"]:
+        raise vlib.MachineryError("no section was decoded concurrently")
     reports = p.stderr.split("WARNING: DATA RACE")[1:]
     first = ""
     if reports:
